@@ -152,6 +152,32 @@ def norm(t):
         return ("cmp", op, l, r)
     if k == "phi":
         return phi(norm(a) for a in t[1])
+    if k == "sub" and len(t) == 3 and isinstance(t[1], tuple) and t[1] and t[1][0] == "comp" and t[1][1] == "list" and len(t[1][3]) == 1:
+        # `[f(i) for i in range(n)][k]` is f(k): a table computed per position and read back at a position
+        names, it, conds = t[1][3][0]
+        if not conds and it[0] == "call" and it[1] == ("builtin", "range") and len(it[2]) == 1 and len(names) == 1:
+            ids = set()
+            stack = [t[1][2]]
+            while stack:
+                x = stack.pop()
+                if isinstance(x, tuple) and x:
+                    if x[0] == "iter" and len(x) == 3 and x[1] == it and isinstance(x[2], tuple) and x[2] and x[2][0] == "comp":
+                        ids.add(x)
+                    stack.extend(y for y in x if isinstance(y, tuple))
+            if len(ids) <= 1 and t[2][0] not in ("slice", "tuple"):
+                elt = t[1][2]
+                if ids:
+                    var = next(iter(ids))
+
+                    def sub_(x):
+                        if not isinstance(x, tuple):
+                            return x
+                        if x == var:
+                            return t[2]
+                        return tuple(sub_(y) for y in x)
+
+                    elt = sub_(elt)
+                return norm(elt)
     return tuple(norm(x) if isinstance(x, tuple) else x for x in t)
 
 
